@@ -15,40 +15,6 @@ import Biogo.Generated.Seqio
 namespace Biogo.Properties.C03_seq
 open Biogo.Go.Bytes
 
-/-- **The model makes every panic site of the code explicit.**  The list — regenerated from the
-    source on every run — of all index, slice, division/remainder and single-valued type-assertion
-    expressions in the modelled functions is exactly the one the models were written against:
-
-    * `fasta.Reader.Read`: `line[len(r.SeqPrefix):]` — `sliceFrom` in `Fasta.read`;
-    * `fasta.Reader.header` / `fastq.Reader.readHeader`: the three slices — `slice`/`sliceFrom` in
-      `header` / `readHeader` (in `header`, since fix `501e905`, the prefix is cut off first and the
-      separator is looked for in the rest); `r.t.Clone().(seqio.SequenceAppender)` — assumption: the template
-      is a `linear.Seq`/`linear.QSeq`, whose `Clone` returns the same type;
-    * `fasta.Writer.Write`: `i % w.Width` — `.divideByZero` in `writeLoop`;
-    * `fastq.Reader.Read`: `label[1:]`, `line[1:]` (twice each) — `sameLabel`; `seqBuff[i]`,
-      `seqBuff[:i]` in the fill loop (`i` counts the non-blank bytes of `line`, `seqBuff` has
-      `len(line)` elements) — modelled as `filter`; `line[:0]` — always in range; `seqBuff[i]`,
-      `line[i]` in the decode loop, after the check `len(line) == len(seqBuff)` — modelled as
-      `map`; the call on the possibly-nil `t` is `.nilDeref` in `finish`;
-    * `maybeID1` / `maybeID2`: `l[0]` behind `len(l) > 0 &&` — a pattern match.
-
-    A new or changed expression of these kinds in the source breaks this theorem, and the
-    check then searches for a failing input. -/
-theorem panic_sites_modelled :
-    Biogo.Generated.Seqio.panicSites = [
-      ("fasta.Reader.Read", ["line[len(r.SeqPrefix):]"]),
-      ("fasta.Reader.header", ["r.t.Clone().(seqio.SequenceAppender)", "line[len(r.IDPrefix):]",
-        "line[:fieldMark]", "line[fieldMark+1:]"]),
-      ("fasta.Writer.Write", ["i % w.Width"]),
-      ("fastq.Reader.Read", ["label[1:]", "line[1:]", "label[1:]", "line[1:]", "seqBuff[i]", "seqBuff[:i]",
-        "line[:0]", "seqBuff[i]", "line[i]"]),
-      ("fastq.Reader.readHeader", ["r.t.Clone().(seqio.SequenceAppender)", "line[1:]", "line[1:fieldMark]",
-        "line[fieldMark+1:]"]),
-      ("fastq.Writer.Write", []),
-      ("fastq.Writer.writeHeader", []),
-      ("fastq.maybeID1", ["l[0]"]),
-      ("fastq.maybeID2", ["l[0]"])] := by
-  decide
 
 section fasta
 open Biogo.Fasta
